@@ -148,7 +148,13 @@ class Engine(GenericConcreteEngine[Callable[..., Any]]):
                 return tree, False, ("backtracking through binary operations is not implemented",)
             case Transfer(target=target) as transfer:
                 if target.engine == preferred:
-                    return transfer.reapply(operation.apply(target)), True, ()
+                    upstream = operation.apply(target)
+                    if upstream.engine == transfer.destination:
+                        # A join that elides its join-identity target yields
+                        # the other operand, which is already where the
+                        # transfer would send it.
+                        return upstream, True, ()
+                    return transfer.reapply(upstream), True, ()
                 else:
                     upstream, done, messages = target.engine.backtrack_unary(operation, target, preferred)
                     if upstream is target:
